@@ -330,11 +330,14 @@ class Term:
     def __setstate__(self, state):
         """Used by copy.deepcopy and pickle: the state is the __dict__ of the
         original object, whose _id is the address of that object. The new
-        object gets its own.
+        object gets its own. The memoised hash is dropped: it was computed by
+        the process that pickled the object, and hashes of strings differ
+        between processes.
 
         """
         self.__dict__.update(state)
         self._id = id(self)
+        self.__dict__.pop('_hash_val', None)
 
     def __call__(self, *args):
         """Apply self (as a function) to a list of arguments."""
